@@ -19,7 +19,8 @@
 From Coq Require Import String.
 From Coq Require Import List NArith ZArith.
 From Dials Require Import Base.Outcome Base.Runes Reflect.Ty Stack.Overlay Text.ParseText
-  Sources.Flatten Sources.FlattenSpec Sources.Env Sources.EnvSpec Sources.EnvProofs Sources.EnvFacts.
+  Sources.Flatten Sources.FlattenSpec Sources.Env Sources.EnvSpec Sources.EnvProofs Sources.EnvFacts
+  Reflect.Ptrify Text.CaseConv Text.GoCamelSpec Sources.EnvGuards.
 Import ListNotations.
 Open Scope string_scope.
 Open Scope list_scope.
@@ -97,7 +98,23 @@ Theorem env_uint_never_truncated : forall w name s v,
   exists n, v = VInt (Z.of_N n) /\ in_uint_range w n = true.
 Proof. exact parse_text_uint_in_range. Qed.
 
+(* The side conditions hold for Pointerify's output on every config type
+   without interface fields, **struct fields and alias tags ... *)
+Theorem env_supported_for_config_types : forall fs,
+  cfg_ok fs = true -> alias_free env_alias_keys fs = true -> env_supported (ptrify_fields fs) = true.
+Proof. exact env_supported_ptrify. Qed.
+
+(* ... and the name guard holds for every untagged path whose words are of the
+   form [a-z][a-z][a-z0-9]* inside C19's go_guard: the guard of env_name_spec
+   excludes only the fusing shapes of finding 8. *)
+Theorem env_name_guard_for_ordinary_words : forall p ws,
+  untagged p -> tag_lookup dialsenv_tag (leaf_tags p) = None ->
+  raw_parts p = Ok ws -> words_ok ws -> name_guard p = true.
+Proof. exact name_guard_words. Qed.
+
 Print Assumptions env_name_spec.
+Print Assumptions env_supported_for_config_types.
+Print Assumptions env_name_guard_for_ordinary_words.
 Print Assumptions env_name_refuted.
 Print Assumptions env_sets_exactly_present.
 Print Assumptions env_value_parsed.
